@@ -23,6 +23,7 @@ RULE = (
     "JSON reload, pickle protocol 2..5, continuation of 1..10 steps from {fill, fill.numpy, + other, += other, *f, re-pickle}). "
     "distinct = digest(spec, stream, protocol, continuation); non-trivial = clone compared equal and >=1 continuation step was "
     "applied to both and compared"
+    ' Every 10th case the state is assembled by Stack.build / Fraction.build (merged with a copy of the original or an independently built one); trees of one-variable string expressions are also filled with bare numbers; records lacking a field are filled in lock-step.'
 )
 ASSUMPTIONS = [
     "quantity functions are self-contained (no globals), the supported case for lambdas",
@@ -154,6 +155,8 @@ def run_case(i, rng, tier):
                 # a bare number instead of a record: every one-variable expression takes it as its variable
                 crit = S.critical_values(sp)
                 v = rng.choice([x for vs in crit.values() for x in vs] or [0.5])
+                if S.kinds_in(sp) & {"Select", "Fraction"}:
+                    v = rng.choice([0.5, 1.0, 2.0, 0.25, -1.0, 0.0, 1.5])  # the bare value is also the selection weight: keep counts exact
                 w = rng.choice([1.0, 0.5, 2.0])
                 h.fill(v, w)
                 c.fill(v, w)
